@@ -178,6 +178,7 @@ func (g *gen) Program() string {
 	w.WriteString("var gp *int\n\n")
 	w.WriteString("func esc(p *int) { gp = p }\n\nfunc poke(v int) {\n\tif gp != nil {\n\t\t*gp = v\n\t}\n}\n\nfunc peek() int {\n\tif gp != nil {\n\t\treturn *gp\n\t}\n\treturn -1\n}\n\n")
 	w.WriteString("func bump(p *int, d int) int {\n\t*p += d\n\treturn *p\n}\n\n")
+	w.WriteString("func tr(k int) int {\n\temit(9, k)\n\treturn k\n}\n\n")
 	w.WriteString("func at(s []int, i int) int {\n\tif len(s) == 0 {\n\t\treturn 0\n\t}\n\treturn s[uint(i)%uint(len(s))]\n}\n\n")
 	w.WriteString("func sidx(s string, i int) byte {\n\tif len(s) == 0 {\n\t\treturn 0\n\t}\n\treturn s[uint(i)%uint(len(s))]\n}\n\n")
 	g.funcs = append(g.funcs,
@@ -952,8 +953,11 @@ func (f *fgen) stmt() {
 			}
 			g.Feat["emit"]++
 			return
-		case k < 17: // call statement
+		case k < 15: // call statement
 			f.callStmt()
+			return
+		case k < 17: // evaluation-order statement
+			f.orderStmt()
 			return
 		case k < 20 && !deep: // if
 			f.ifStmt()
@@ -1031,8 +1035,11 @@ func (f *fgen) stmt() {
 			f.line("}")
 			g.Feat["panic"]++
 			return
-		case k < 35: // escape patterns
+		case k < 34: // escape patterns
 			f.escapeStmt()
+			return
+		case k < 35 && !deep:
+			f.escapeIdiom()
 			return
 		case k < 37: // closure
 			f.closureStmt()
@@ -1130,6 +1137,71 @@ func (f *fgen) callStmt() {
 		}
 		f.line("%s = %s", strings.Join(lvs, ", "), c)
 		g.Feat["multi-value-call"]++
+	}
+}
+
+// tr(k) emits k and returns it: statements built from it fix the order in which the specification
+// requires calls to happen (all other operands are plain)
+func (f *fgen) trc(max int) string {
+	g := f.g
+	if v := f.pickVar(true, func(v *vr) bool { return v.t == g.tInt }); v != nil && g.chance(30) {
+		return fmt.Sprintf("tr(int(uint(%s) %% %d))", v.name, max)
+	}
+	return fmt.Sprintf("tr(%d)", g.pick(max))
+}
+
+func (f *fgen) orderStmt() {
+	g := f.g
+	g.Feat["order-stmt"]++
+	arr := f.pickVar(true, func(v *vr) bool { return v.t.k == tArray && v.t.elem == g.tInt })
+	if arr == nil {
+		arr = &vr{name: f.fresh("o"), t: g.arrayOf(g.tInt, 3)}
+		f.line("var %s %s", arr.name, arr.t.name)
+		f.line("_ = %s", arr.name)
+		f.declare(arr)
+	}
+	x := f.pickVar(true, func(v *vr) bool { return v.t == g.tInt && !v.readonly })
+	if x == nil {
+		x = &vr{name: f.fresh("v"), t: g.tInt}
+		f.line("%s := %s", x.name, f.expr(g.tInt, 1, true))
+		f.line("_ = %s", x.name)
+		f.declare(x)
+	}
+	ops := []string{"+=", "-=", "|=", "^=", "*="}
+	switch g.pick(12) {
+	case 0, 1:
+		f.line("%s[%s] %s %s", arr.name, f.trc(arr.t.n), ops[g.pick(len(ops))], f.trc(9))
+	case 2:
+		f.line("%s[%s] = %s", arr.name, f.trc(arr.t.n), f.trc(9))
+	case 3:
+		f.line("%s = %s - %s*%s", x.name, f.trc(9), f.trc(9), f.trc(9))
+	case 4:
+		f.line("%s[%s], %s = %s, %s", arr.name, f.trc(arr.t.n), x.name, f.trc(9), f.trc(9))
+	case 5:
+		f.line("if %s < %s && %s > %s || %s == 1 {", f.trc(5), f.trc(5), f.trc(5), f.trc(5), f.trc(3))
+		f.block(1)
+		f.line("}")
+	case 6:
+		f.line("%s = %s{%s, %s}[%s]", x.name, g.arrayOf(g.tInt, 2).name, f.trc(9), f.trc(9), f.trc(2))
+	case 7:
+		f.line("switch %s {", f.trc(4))
+		f.line("case %s:", f.trc(4))
+		f.block(1)
+		f.line("case %s, %s:", f.trc(4), f.trc(4))
+		f.block(1)
+		f.line("}")
+	case 8:
+		if s := f.pickVar(false, func(v *vr) bool { return v.appendable }); s != nil {
+			f.line("%s = append(%s, %s, %s)", s.name, s.name, f.trc(9), f.trc(9))
+		} else {
+			f.line("emit(%s, %s)", f.trc(9), f.trc(9))
+		}
+	case 9:
+		f.line("%s %s %s", x.name, ops[g.pick(len(ops))], f.trc(9)+" + "+f.trc(9))
+	case 10:
+		f.line("%s = min(%s, %s, %s)", x.name, f.trc(9), f.trc(9), f.trc(9))
+	default:
+		f.line("%s = []int{%s, %s, %s}[%s:%s][0]", x.name, f.trc(9), f.trc(9), f.trc(9), f.trc(2), "2+"+f.trc(2))
 	}
 }
 
@@ -1490,6 +1562,89 @@ func (f *fgen) escapeStmt() {
 		} else {
 			f.line("emit(%d, peek())", g.pick(9))
 		}
+	}
+}
+
+// escapeIdiom: a local whose address escapes on some paths only, assigned on the sibling paths,
+// then read (and modified through the escaped pointer) after the join
+func (f *fgen) escapeIdiom() {
+	g := f.g
+	g.Feat["escape-idiom"]++
+	v := f.pickVar(false, func(v *vr) bool { return v.t == g.tInt && v.escapable && !strings.HasPrefix(v.name, "g") })
+	if v == nil || g.chance(50) {
+		v = &vr{name: f.fresh("v"), t: g.tInt, escapable: true, unstable: true}
+		f.line("%s := %s", v.name, f.expr(g.tInt, 1, false))
+		f.declare(v)
+	}
+	arm := func() {
+		f.ind++
+		switch g.pick(7) {
+		case 0, 1:
+			f.line("%s = %s", v.name, f.expr(g.tInt, 2, false))
+		case 2:
+			f.line("esc(&%s)", v.name)
+		case 3:
+			f.line("%s += %d", v.name, 1+g.pick(5))
+			f.line("esc(&%s)", v.name)
+		case 4:
+			f.line("esc(&%s)", v.name)
+			f.line("%s = %s", v.name, f.expr(g.tInt, 1, false))
+		case 5:
+			f.line("poke(%d)", g.pick(50))
+		default:
+			f.line("emit(%d, %s)", g.pick(9), v.name)
+		}
+		f.ind--
+	}
+	inLoop := g.chance(35)
+	if inLoop {
+		f.line("for %s := 0; %s < %d; %s++ {", "k"+v.name, "k"+v.name, 2+g.pick(2), "k"+v.name)
+		f.ind++
+	}
+	if g.chance(50) {
+		n := 2 + g.pick(3)
+		f.line("switch %s & 3 {", f.nonConstInt(1))
+		for i := 0; i < n; i++ {
+			f.line("case %d:", i)
+			arm()
+			if i < n-1 && g.chance(20) {
+				f.line("\tfallthrough")
+			}
+		}
+		if g.chance(50) {
+			f.line("default:")
+			arm()
+		}
+		f.line("}")
+	} else {
+		f.line("if %s {", f.nonConstBool(1))
+		arm()
+		n := g.pick(3)
+		for i := 0; i < n; i++ {
+			f.line("} else if %s {", f.nonConstBool(1))
+			arm()
+		}
+		if g.chance(70) {
+			f.line("} else {")
+			arm()
+		}
+		f.line("}")
+	}
+	if inLoop {
+		if g.chance(50) {
+			f.line("%s += %s", v.name, "k"+v.name)
+		}
+		f.ind--
+		f.line("}")
+	}
+	f.line("emit(%d, %s)", g.pick(9), v.name)
+	if g.chance(60) {
+		f.line("poke(%d)", 50+g.pick(50))
+		f.line("emit(%d, %s)", g.pick(9), v.name)
+	}
+	if g.chance(30) {
+		f.line("%s++", v.name)
+		f.line("emit(%d, peek())", g.pick(9))
 	}
 }
 
